@@ -10,6 +10,7 @@ import (
 	"fmt"
 	"hash/fnv"
 	"os"
+	"runtime"
 	"runtime/debug"
 	"sort"
 	"strconv"
@@ -137,6 +138,7 @@ func New(property, level, rule string, assumptions ...string) *Recorder {
 			r.deadline = r.start.Add(time.Duration(s * float64(time.Second)))
 		}
 	}
+	r.startWatchdog()
 	return r
 }
 
@@ -342,11 +344,54 @@ func (r *Recorder) Violations() int64 {
 }
 
 // Guard runs f and converts a panic into an error string with stack.
+// LibraryPanics, when set (by test packages built with the instrumentation
+// overlay: vsched.TakePanics), returns and clears the panics that the overlay
+// recovered at the top of goroutines spawned by the library.
+var LibraryPanics func() []string
+
+// startWatchdog: a harness that makes no progress (no evaluation, state,
+// trace or transition recorded) for ten minutes of real time is stuck; dump the
+// goroutines and exit with status 3, which the driver reports as a machinery
+// error, instead of hanging without bound (go test's own timeout is disabled).
+func (r *Recorder) startWatchdog() {
+	go func() {
+		last, since := int64(-1), time.Now()
+		for {
+			time.Sleep(15 * time.Second)
+			r.mu.Lock()
+			cur := r.res.Evaluations + r.res.Transitions + r.res.Traces + int64(len(r.states))
+			r.mu.Unlock()
+			if cur != last {
+				last, since = cur, time.Now()
+				continue
+			}
+			if time.Since(since) > 10*time.Minute {
+				buf := make([]byte, 1<<22)
+				buf = buf[:runtime.Stack(buf, true)]
+				fmt.Fprintf(os.Stderr, "WATCHDOG(vp): nothing recorded for %v; goroutines:\n%s\n", time.Since(since).Round(time.Second), buf)
+				os.Exit(3)
+			}
+		}
+	}()
+}
+
+// Guard runs f and reports a panic of f itself or, with the overlay, of a
+// goroutine the library spawned while f ran (f is expected to wait for
+// quiescence before it returns).
 func Guard(f func()) (panicked bool, msg string) {
+	if LibraryPanics != nil {
+		LibraryPanics()
+	}
 	defer func() {
 		if e := recover(); e != nil {
 			panicked = true
 			msg = fmt.Sprintf("%v\n%s", e, debug.Stack())
+			return
+		}
+		if LibraryPanics != nil {
+			if ps := LibraryPanics(); len(ps) > 0 {
+				panicked, msg = true, ps[0]
+			}
 		}
 	}()
 	f()
